@@ -3,6 +3,8 @@ import LogosModel.Callback
 import LogosModel.Hir
 import LogosModel.Interp
 import LogosModel.Utf8Closed
+import LogosModel.Equiv
+import LogosModel.Priority
 import Std.Data.HashSet
 /-!
 # Line-protocol driver (untrusted glue: parsing, closure search, printing)
@@ -169,6 +171,72 @@ def utf8Verdict (h : Hir) : String :=
   | none => "U"
   | some S => if utf8ClosedB S.toList r then "1" else "0"
 
+def hexOf (w : List Nat) : String :=
+  if w.isEmpty then "-" else
+  String.join (w.map fun b =>
+    let d := fun (n : Nat) => Char.ofNat (if n < 10 then 48 + n else 87 + n)
+    String.ofList [d (b / 16), d (b % 16)])
+
+/-- BFS over derivative vectors looking for a tie; returns (witness?, closure if exhausted) -/
+partial def tieSearch (prios : List Nat) (queue : Array (Vec × List Nat)) (i : Nat)
+    (seen : Std.HashSet Vec) (fuel : Nat) : Option (List Nat) × Option (Std.HashSet Vec) :=
+  if fuel = 0 then (none, none) else
+  if h : i < queue.size then
+    let (Δ, w) := queue[i]
+    if tieAt prios Δ then (some w.reverse, none) else
+    let (queue, seen) := (List.range 256).foldl (fun (acc : Array (Vec × List Nat) × Std.HashSet Vec) b =>
+      let Δ' := derivV b Δ
+      if viableV Δ' && !acc.2.contains Δ' then (acc.1.push (Δ', b :: w), acc.2.insert Δ') else acc) (queue, seen)
+    tieSearch prios queue (i+1) seen (fuel - 1)
+  else (none, some seen)
+
+def tieVerdict (c : Case) : String :=
+  if c.nodump then "NODUMP" else
+  if c.hasLook then "LOOK" else
+  let D := c.res
+  let prios := c.prios.toList
+  match tieSearch prios #[(D, [])] 0 (({} : Std.HashSet Vec).insert D) 100000 with
+  | (some w, _) =>
+    if tieAt prios (derivsV w D) then
+      let ns := nullIdx prios (derivsV w D)
+      let mx := ns.foldl (fun m p => max m p.2) 0
+      let tops := (ns.filter fun p => p.2 == mx).map fun p => toString p.1
+      s!"TIE {hexOf w} {",".intercalate tops}"
+    else "BADWITNESS"
+  | (none, some S) => if tieFreeB S.toList prios D then s!"FREE {S.size}" else "CHECKFAIL"
+  | (none, none) => "UNKNOWN"
+
+/-- BFS for a distinguishing string of two regexes -/
+partial def eqSearch (queue : Array ((Re × Re) × List Nat)) (i : Nat)
+    (seen : Std.HashSet (Re × Re)) (fuel : Nat) : Option (List Nat) × Option (Std.HashSet (Re × Re)) :=
+  if fuel = 0 then (none, none) else
+  if h : i < queue.size then
+    let ((a, b), w) := queue[i]
+    if nullable a != nullable b then (some w.reverse, none) else
+    let (queue, seen) := (List.range 256).foldl (fun (acc : Array ((Re × Re) × List Nat) × Std.HashSet (Re × Re)) c =>
+      let p := (derivN c a, derivN c b)
+      if !acc.2.contains p then (acc.1.push (p, c :: w), acc.2.insert p) else acc) (queue, seen)
+    eqSearch queue (i+1) seen (fuel - 1)
+  else (none, some seen)
+
+def equivVerdict (c : Case) (i j : Nat) : String :=
+  match c.hirs[i]?, c.hirs[j]? with
+  | some hi, some hj =>
+    if hi.hasLook || hj.hasLook then "LOOK" else
+    let r := hi.lower
+    let s := hj.lower
+    let p0 := (norm r, norm s)
+    match eqSearch #[(p0, [])] 0 (({} : Std.HashSet (Re × Re)).insert p0) 50000 with
+    | (some w, _) => if matchesB r w != matchesB s w then s!"NE {hexOf w} {matchesB r w} {matchesB s w}" else "BADWITNESS"
+    | (none, some S) => if equivB S.toList r s then s!"EQ {S.size}" else "CHECKFAIL"
+    | (none, none) => "UNKNOWN"
+  | _, _ => "NOLEAF"
+
+def matchVerdict (c : Case) (i : Nat) (w : List Nat) : String :=
+  match c.hirs[i]? with
+  | some h => if h.hasLook then "L" else if matchesB h.lower w then "1" else "0"
+  | none => "?"
+
 /-! ## stream printing -/
 
 def itemStr (c : Case) : Item → String
@@ -218,6 +286,10 @@ def answer (c : Case) (q : List String) : String :=
   | ["PSPEC", hex] => specPStr c (unhex hex)
   | ["LEX", "t", hex] => traceStr c false (unhex hex)
   | ["UTF8CLOSED"] => " ".intercalate (c.hirs.toList.map utf8Verdict)
+  | ["TIE"] => tieVerdict c
+  | ["EQUIV", i, j] => equivVerdict c i.toNat! j.toNat!
+  | ["MATCH", i, hex] => matchVerdict c i.toNat! (unhex hex)
+  | ["CLSOK"] => " ".intercalate (c.hirs.toList.map fun h => if h.clsOK then "1" else "0")
   | ["PRIO"] => " ".intercalate (c.hirs.toList.map fun h => toString h.complexity)
   | ["NULLABLE"] => " ".intercalate (c.hirs.toList.map fun h => if h.hasLook then "L" else if nullable h.lower then "1" else "0")
   | _ => "BADQ"
